@@ -105,7 +105,7 @@ def ionq_dispatch():
     out = ['(* GENERATED by vf/tables_c17.py from the working tree: what cirq_ionq.Serializer emits.',
            '   dispatch row: (family, exponent in units of 1e-10, None = ValueError | Some (mnemonic, rotation/pi in 1e-10 units, layout)). *)',
            'From Coq Require Import String List ZArith.', 'From VF Require Import Vendor.IonQ.', 'Import ListNotations.',
-           'Open Scope string_scope.', 'Open Scope Z_scope.',
+           'Local Open Scope string_scope.', 'Local Open Scope Z_scope.',
            f'Definition ionq_serializer_atol : Z := {zl(units(float(ser.atol), "Serializer().atol"))}.',
            'Definition ionq_dispatch_rows : list dispatch_row := [\n' + ';\n'.join(rows) + '].',
            'Definition ionq_native_rows : list native_row := [\n' + ';\n'.join(nrows) + '].']
